@@ -1,6 +1,97 @@
-(* C18 — placeholder during development *)
-From Coq Require Import QArith List.
-From Verif Require Import model.PoolMetrics.
-Example C18_dev : soc_calc nil = None.
-Proof. reflexivity. Qed.
-Print Assumptions C18_dev.
+(* C18 — Pool SoC and capacity are the documented aggregates of working batteries.
+   Statements only; every proof is `exact <lemma>` from proofs/.
+
+   soc_calc bs / cap_calc bs = SoCCalculator.calculate / CapacityCalculator.calculate on the
+   batteries bs (each with its working / present-in-metrics_data flags and optional metrics);
+   doc_soc, doc_capacity     = the formulas in the docstrings of BatteryPool.soc / .capacity. *)
+From Coq Require Import QArith List Lqa Permutation.
+From Verif Require Import model.Common model.PoolBounds model.PoolMetrics proofs.PoolBoundsNum proofs.PoolMetricsFacts.
+Import ListNotations.
+Open Scope Q_scope.
+
+(* SoC = usable-capacity-weighted mean of the rescaled, clamped SoCs (snapped to 100 when
+   math.isclose says so); 0 when the total usable capacity x 100 is within 1e-9 of zero.
+   limits_ok: no battery has distinct SoC limits that math.isclose treats as equal. *)
+Theorem C18_soc_spec : forall bs r, (forall b, In b bs -> limits_ok b) -> soc_calc bs = Some r ->
+  (is_close_to_zero (100 * doc_total bs) = false -> r == snap100 (doc_soc bs)) /\
+  (is_close_to_zero (100 * doc_total bs) = true -> r == 0).
+Proof. exact soc_spec. Qed.
+
+(* capacity = sum of usable capacities *)
+Theorem C18_capacity_spec : forall bs r, cap_calc bs = Some r -> r == doc_capacity bs.
+Proof. exact cap_spec. Qed.
+
+(* None exactly when no battery qualifies (working, present, all required metrics) *)
+Theorem C18_soc_none_iff : forall bs, soc_calc bs = None <-> forall b, In b bs -> soc_qualifies b = false.
+Proof. exact soc_none_iff. Qed.
+Theorem C18_capacity_none_iff : forall bs, cap_calc bs = None <-> forall b, In b bs -> cap_qualifies b = false.
+Proof. exact cap_none_iff. Qed.
+
+(* 0 <= SoC <= 100 (capacities >= 0, lower limit <= upper limit; SoC itself unconstrained) *)
+Theorem C18_range : forall bs r, (forall b, In b bs -> wf_bat b) -> soc_calc bs = Some r -> 0 <= r <= 100.
+Proof. exact soc_range. Qed.
+
+(* non-decreasing in every battery's SoC (any number of batteries raised at once) *)
+Theorem C18_monotone : forall bs bs' r r',
+  (forall b, In b bs -> wf_bat b) -> Forall2 soc_raised bs bs' ->
+  soc_calc bs = Some r -> soc_calc bs' = Some r' -> r <= r'.
+Proof. exact soc_monotone. Qed.
+
+(* unchanged when all capacities are scaled by k > 0 — provided the zero-capacity guard, an
+   absolute tolerance, answers the same before and after (hypothesis necessary, see below) *)
+Theorem C18_scale : forall k bs, 0 < k ->
+  is_close_to_zero (k * qsumf entry_total bs) = is_close_to_zero (qsumf entry_total bs) ->
+  optQ_eq (soc_calc (scale_caps k bs)) (soc_calc bs).
+Proof. exact soc_scale. Qed.
+
+Theorem C18_scale_guard_hypothesis_needed : exists k bs,
+  0 < k /\ (forall b, In b bs -> wf_bat b) /\ ~ optQ_eq (soc_calc (scale_caps k bs)) (soc_calc bs).
+Proof.
+  exists (1 # 1000000000000), [mkBat true true (Some 1) (Some 0) (Some 100) (Some 50)].
+  split; [reflexivity|]. split.
+  - intros b [<-|[]] _. cbn. split; lra.
+  - vm_compute. intro H. discriminate H.
+Qed.
+
+(* batteries that are not working, absent from the data or lack a metric do not influence
+   the result: it is a function of the qualifying batteries alone *)
+Theorem C18_excluded : forall bs,
+  soc_calc bs = soc_calc (filter soc_qualifies bs) /\ cap_calc bs = cap_calc (filter cap_qualifies bs).
+Proof. intro bs. exact (conj (soc_excluded bs) (cap_excluded bs)). Qed.
+Theorem C18_excluded_one : forall l1 b l2,
+  (soc_qualifies b = false -> soc_calc (l1 ++ b :: l2) = soc_calc (l1 ++ l2)) /\
+  (cap_qualifies b = false -> cap_calc (l1 ++ b :: l2) = cap_calc (l1 ++ l2)).
+Proof. intros. exact (conj (soc_excluded_one l1 b l2) (cap_excluded_one l1 b l2)). Qed.
+
+(* the iteration order of the `working_batteries` set does not matter *)
+Theorem C18_order_free : forall bs bs', Permutation bs bs' ->
+  optQ_eq (soc_calc bs) (soc_calc bs') /\ optQ_eq (cap_calc bs) (cap_calc bs').
+Proof. intros bs bs' P. exact (conj (soc_permutation bs bs' P) (cap_permutation bs bs' P)). Qed.
+
+(* non-vacuity: two working batteries (one outside its limits), one non-working, one incomplete *)
+Example C18_nonvacuous :
+  let bs := [mkBat true true (Some 100) (Some 10) (Some 90) (Some 50);
+             mkBat true true (Some 50) (Some 20) (Some 80) (Some 95);
+             mkBat false true (Some 70) (Some 0) (Some 100) (Some 10);
+             mkBat true true (Some 70) None (Some 100) (Some 10)] in
+  (forall b, In b bs -> wf_bat b) /\ (forall b, In b bs -> limits_ok b) /\
+  optQ_eq (soc_calc bs) (Some (700 # 11)) /\ optQ_eq (cap_calc bs) (Some 110) /\
+  is_close_to_zero (100 * doc_total bs) = false /\ doc_soc bs == 700 # 11.
+Proof.
+  cbv zeta. split; [|split].
+  - intros b [<-|[<-|[<-|[<-|[]]]]] HQ; try discriminate HQ; cbn; split; lra.
+  - intros b [<-|[<-|[<-|[<-|[]]]]] HQ HC; try discriminate HQ; vm_compute in HC; discriminate HC.
+  - repeat split; vm_compute; reflexivity.
+Qed.
+
+Print Assumptions C18_soc_spec.
+Print Assumptions C18_capacity_spec.
+Print Assumptions C18_soc_none_iff.
+Print Assumptions C18_capacity_none_iff.
+Print Assumptions C18_range.
+Print Assumptions C18_monotone.
+Print Assumptions C18_scale.
+Print Assumptions C18_scale_guard_hypothesis_needed.
+Print Assumptions C18_excluded.
+Print Assumptions C18_excluded_one.
+Print Assumptions C18_order_free.
